@@ -41,6 +41,14 @@ def props_on(s):
         p.parse()
     if ''.join(texts) != s:
         bad.append(('concatenated full texts differ from the input', 'C18:lossless'))
+    # the same through the public line iterator (parseLines): consumes the text completely, reproduces it byte for byte
+    try:
+        joined = ''.join(g.fullText for g in GcodeParser().parseLines(s))
+    except Exception as e:
+        joined = None
+        bad.append(('parseLines raised %s: %s' % (type(e).__name__, e), 'C18:exception'))
+    if joined is not None and joined != s:
+        bad.append(('parseLines: concatenated full texts %r differ from the input' % (joined[-40:],), 'C18:lossless-lines'))
     # stability of the normalised command string
     q = GcodeParser(); q.parse(s)
     if q.gcode is not None:
@@ -64,7 +72,10 @@ def oracle(ctx, budget=1, replay=None, hints=None):
     fails, n = [], 0
     maxlen = 4 if budget <= 1 else 5
     strings = itertools.chain(*[LS.all_strings(k) for k in range(0, maxlen + 1)])
-    extra = LS.random_lines(ctx.rng, 3000 * budget) + [' N5 G1 X1', 'N1 G28*12 ; home\n', '   N0123   G028  X  *107   ; Comment   \r\n']
+    rl = LS.random_lines(ctx.rng, 3000 * budget)
+    multi = [''.join(ctx.rng.choice(rl) for _ in range(ctx.rng.randint(2, 5))) + ctx.rng.choice(['', '; tail comment', ';', ' ', 'M84', '; c\r', 'G1 X1 ; c'])
+             for _ in range(600 * budget)]
+    extra = rl + multi + [' N5 G1 X1', 'N1 G28*12 ; home\n', '   N0123   G028  X  *107   ; Comment   \r\n']
     for s in itertools.chain(strings, extra):
         n += 1
         for what, sig in props_on(s):
